@@ -21,7 +21,7 @@ PROPERTY = "C09"
 
 
 def classify(dom):
-    return "progressbar-no-newline" if dom == "f23" else None
+    return "progressbar-no-newline" if dom == "f23" else "table-ratio-zero-column" if dom == "rz" else None
 
 
 def _measure_job(args):
@@ -29,7 +29,7 @@ def _measure_job(args):
     spec, cwidth, widths = args[:3]
     shared = len(args) > 3 and args[3]
     console = L.make_console(cwidth)
-    obj = L.guarded(lambda: L.build(spec)) if shared else None
+    obj = L.guarded(lambda: L.build(spec)) if shared and not L.has_styled_rule(spec) else None
     if isinstance(obj, str):
         obj = None
     cases, checks, notes = [], [], {}
@@ -228,6 +228,7 @@ MANIFEST = {
     "text": "Lean 4 theorems (Props/C09.lean) about the composition model Model/Layout.lean (shared with C01): `measurement_get_normal` "
     "(whatever __rich_measure__ returns, Measurement.get answers 0 <= min <= max <= max(available,0)), `measure_normal` (the same for "
     "`measure` of every renderable tree incl. objects without __rich_measure__ and __rich__ casts, every Python-int width), "
+    "`group_measure_is_max` (a fitted group reports the largest minimum / maximum of its members), "
     "`render_at_max_fits` / `render_at_min_fits` (rendering at the reported maximum / minimum produces no line wider than that value when "
     "it is at or above the structural minimum: corollaries of C01.render_fits, which holds at every width), `text_measure_spec` (minimum = "
     "widest whitespace-separated word, maximum = widest line, attained, min <= max), `text_at_max_not_wrapped` + `divide_line_nil_of_fits` "
@@ -240,8 +241,7 @@ MANIFEST = {
     "minimum, as the property says; a group containing a ProgressBar that is not last is the known finding progressbar-no-newline (F23): its "
     "measurement is unsound.  `text_at_max_not_wrapped` assumes `\\n` is the only line-break character of the text (str.splitlines, used by "
     "the measurement, also breaks at FS/GS/RS/NEL/LS/PS; wrap does not).  Table.__rich_measure__ is modelled here (`tableRichMeasure` of Model/Layout.lean; C07's Model/Table.lean has gained its own "
-    "`Table.richMeasure` since, compared per table by ./check C07).  Outside the "
-    "model: zero-column tables (the driver's static domain asks for at least one column; their AssertionError in ratio_distribute was a "
-    "defect of rich 9.10.0 as found, repaired by fix 1d61bac), Columns(width=...), str renderables, styles.  Trusted base as C01.",
+    "`Table.richMeasure` since, compared per table by ./check C07).  Quirk modelled: an object whose __rich__ returns a str is "
+    "measured (0, available), because Measurement.get converts a str before it follows __rich__.  New finding shared with C01: table-ratio-zero-column (see C01 note).  Outside the model: styles, panel/rule titles wider than console.width.  Trusted base as C01.",
     "design_ref": "DESIGN.md section 7, C01/C07/C08/C09",
 }
